@@ -146,6 +146,10 @@ def main(argv):
     pc = cfg['properties'][a.prop]
     seed = int(os.environ.get('VERIF_SEED', '0') or 0)
     outdir = os.path.join(ROOT, 'work', a.prop)
+    if os.environ.get('VERIF_REPO'):
+        # maintainer runs against scratch copies may run side by side: keep their work files apart
+        import hashlib as _h
+        outdir += '-' + _h.sha1(os.environ['VERIF_REPO'].encode()).hexdigest()[:8]
     shutil.rmtree(outdir, ignore_errors=True)
     os.makedirs(outdir, exist_ok=True)
     replay_dir = os.path.join(ROOT, 'replay', 'out')
